@@ -356,3 +356,392 @@ func rxSourceInfo(w *World) {
 	}
 	w.floor("(tag, index) path extensions in sourceinfo", nTriples, 15)
 }
+
+// RX5 (C23): location paths are extended, never rewritten. The generators pass the current path
+// down as `append(path, tag, index)`; sibling paths derived from one parent may share a backing
+// array, which is harmless as long as every path only ever *grows* from its own length (a stored
+// location clones its path). An append into a *shortened* reslice of a path that arrived as a
+// parameter (`append(p[:k], …)`, directly or through a local alias) overwrites elements that the
+// caller's and the siblings' paths still read: the extension path of an `extend` block turns into a
+// message path and every later location of the block lands on an element that does not exist.
+// Appending to a shortened slice is fine when its storage is fresh (make / slices.Clone / copy).
+func rx5PathNeverRewritten(w *World) {
+	w.rule("RX5")
+	p := w.pkg("sourceinfo")
+	if p == nil {
+		return
+	}
+	info := p.TypesInfo
+	nApp, nBad := 0, 0
+	for _, b := range allFuncBodies(p) {
+		if b.Lit != nil {
+			continue
+		}
+		params := map[types.Object]bool{}
+		for _, fl := range b.Decl.Type.Params.List {
+			for _, nm := range fl.Names {
+				if o := info.Defs[nm]; o != nil {
+					if _, isSl := o.Type().Underlying().(*types.Slice); isSl {
+						params[o] = true
+					}
+				}
+			}
+		}
+		// aliases: locals whose every assignment is a (re)slice or plain copy of a parameter-rooted slice
+		rootedInParam := func(e ast.Expr) bool {
+			for {
+				switch t := ast.Unparen(e).(type) {
+				case *ast.SliceExpr:
+					e = t.X
+					continue
+				case *ast.Ident:
+					return params[info.Uses[t]]
+				}
+				return false
+			}
+		}
+		shortened := map[types.Object]ast.Node{}
+		ast.Inspect(b.Body, func(x ast.Node) bool {
+			as, ok := x.(*ast.AssignStmt)
+			if !ok || len(as.Lhs) != len(as.Rhs) {
+				return true
+			}
+			for i, l := range as.Lhs {
+				id, ok := l.(*ast.Ident)
+				if !ok {
+					continue
+				}
+				if se, ok := ast.Unparen(as.Rhs[i]).(*ast.SliceExpr); ok && se.High != nil && rootedInParam(se.X) {
+					o := info.Defs[id]
+					if o == nil {
+						o = info.Uses[id]
+					}
+					if o != nil {
+						shortened[o] = se
+					}
+				}
+			}
+			return true
+		})
+		ast.Inspect(b.Body, func(x ast.Node) bool {
+			c, ok := x.(*ast.CallExpr)
+			if !ok || !isBuiltinCall(info, c, "append") || len(c.Args) < 2 {
+				return true
+			}
+			t := info.TypeOf(c.Args[0])
+			if t == nil {
+				return true
+			}
+			if sl, ok := t.Underlying().(*types.Slice); !ok || !types.Identical(sl.Elem(), types.Typ[types.Int32]) {
+				return true
+			}
+			nApp++
+			base := ast.Unparen(c.Args[0])
+			bad := ""
+			if se, ok := base.(*ast.SliceExpr); ok && se.High != nil && rootedInParam(se.X) {
+				bad = types.ExprString(base)
+			} else if id, ok := base.(*ast.Ident); ok {
+				if se, isShort := shortened[info.Uses[id]]; isShort {
+					bad = id.Name + " (= " + types.ExprString(se.(ast.Expr)) + ")"
+				}
+			}
+			if bad != "" {
+				nBad++
+				w.violation("path-rewritten|"+b.Label+"|"+types.ExprString(c), c.Pos(), "append into "+bad+", a shortened view of a path received as a parameter: the elements after the cut are overwritten in storage the caller's path and sibling paths still share, so later locations get paths of elements that do not exist in the descriptor")
+			}
+			return true
+		})
+	}
+	w.floor("appends to []int32 paths in package sourceinfo", nApp, 40)
+	if nBad == 0 {
+		w.ok("path-rewritten", token.NoPos, fmt.Sprintf("none of the %d appends to a location path targets a shortened view of a parameter's storage", nApp))
+	}
+}
+
+// RX6 (C23): comments are text taken from the source. combineComments may add a character that is
+// not part of the comment's own text (the newline protoc appends to a line comment) only under a
+// test on the source text that follows the comment (the next item's leading whitespace); an
+// unconditional write of a literal in the `//` branch invents text for a comment that ends at the
+// end of the file.
+func rx6CommentTextFromSource(w *World) {
+	w.rule("RX6")
+	fr := w.fn("sourceinfo", "(*sourceCodeInfo).combineComments")
+	if fr == nil {
+		return
+	}
+	info := fr.Pkg.TypesInfo
+	parents := parentMap(fr.Decl)
+	n := 0
+	ast.Inspect(fr.Decl.Body, func(x ast.Node) bool {
+		c, ok := x.(*ast.CallExpr)
+		if !ok || len(c.Args) != 1 {
+			return true
+		}
+		s, ok := ast.Unparen(c.Fun).(*ast.SelectorExpr)
+		if !ok || !(s.Sel.Name == "WriteRune" || s.Sel.Name == "WriteByte" || s.Sel.Name == "WriteString") {
+			return true
+		}
+		tv, ok := info.Types[c.Args[0]]
+		if !ok || tv.Value == nil {
+			return true // writes derived from the comment text itself
+		}
+		lit := tv.Value.ExactString()
+		if !(strings.Contains(lit, "\\n") || lit == "10") {
+			return true
+		}
+		// only the line-comment branch is of interest: the block-comment branch re-joins lines it
+		// split out of the comment's own text
+		inLineBranch := false
+		var child ast.Node = c
+		for cur := parents[c]; cur != nil; child, cur = cur, parents[cur] {
+			if ifs, ok := cur.(*ast.IfStmt); ok && child == ast.Node(ifs.Body) && strings.Contains(types.ExprString(ifs.Cond), `"//"`) {
+				inLineBranch = true
+			}
+		}
+		if !inLineBranch {
+			return true
+		}
+		n++
+		key := "literal-newline|" + types.ExprString(c)
+		// enclosing condition (inside the line-comment branch) that looks at the source after the comment
+		guarded := false
+		for cur := parents[c]; cur != nil; cur = parents[cur] {
+			ifs, ok := cur.(*ast.IfStmt)
+			if !ok {
+				continue
+			}
+			if strings.Contains(types.ExprString(ifs.Cond), `"//"`) {
+				break
+			}
+			ast.Inspect(ifs.Cond, func(y ast.Node) bool {
+				if cc, ok := y.(*ast.CallExpr); ok {
+					if ss, ok := ast.Unparen(cc.Fun).(*ast.SelectorExpr); ok {
+						switch ss.Sel.Name {
+						case "LeadingWhitespace", "HasPrefix", "HasSuffix", "RawText":
+							guarded = true
+						}
+					}
+				}
+				return true
+			})
+		}
+		if guarded {
+			w.ok(key, c.Pos(), "the newline is written under a test on the text around the comment")
+		} else {
+			w.violation(key, c.Pos(), "combineComments writes a literal newline unconditionally: a `//` comment that ends at the end of the file gets a newline that is not in the source, so the comment is no longer text taken from the source")
+		}
+		return true
+	})
+	w.floor("literal newline writes in combineComments", n, 1)
+}
+
+// RX7 (C23): "the extra-comments mode has the same locations as the standard mode and differs
+// only by added comments". Comments are handed out first-come-first-served (commentUsed): a
+// comment that precedes a token goes to the first location that asks for the comments of a node
+// starting at that token. In standard mode only newLocWithComments / newBlockLocWithComments ask;
+// in extra-comments mode every newLoc asks. For a group, the field's own location deliberately does
+// not take the comments (newLocWithoutComments(n, …): "comments will appear on group message"),
+// because the group *message* location, emitted later, takes them in both modes. In that branch a
+// comment-claiming newLoc for a child that can be the declaration's *first token* steals, in
+// extra-comments mode only, exactly the comment the message location has in standard mode.
+// Which children can be first is computed from the AST constructor (children appended before the
+// first unconditionally appended one, plus that one); accessors are mapped to constructor
+// parameters through the methods of the node type. A claiming call is fine when it is guarded by
+// `n.<earlier child>() != nil` (then it is not the first token).
+func rx7ReservedCommentsNotStolen(w *World) {
+	w.rule("RX7")
+	sp, ap := w.pkg("sourceinfo"), w.pkg("ast")
+	gen := w.fn("sourceinfo", "generateSourceCodeInfoForField")
+	ctor := w.fn("ast", "NewGroupNode")
+	gn := w.typ("ast", "GroupNode")
+	if sp == nil || ap == nil || gen == nil || ctor == nil || gn == nil {
+		return
+	}
+	sinfo, ainfo := sp.TypesInfo, ap.TypesInfo
+	// 1. constructor: ordered children (params) and whether each append is conditional
+	params := map[types.Object]string{}
+	for _, fl := range ctor.Decl.Type.Params.List {
+		for _, nm := range fl.Names {
+			params[ainfo.Defs[nm]] = nm.Name
+		}
+	}
+	cparents := parentMap(ctor.Decl)
+	type child struct {
+		param string
+		cond  bool
+	}
+	var children []child
+	ast.Inspect(ctor.Decl.Body, func(x ast.Node) bool {
+		c, ok := x.(*ast.CallExpr)
+		if !ok || !isBuiltinCall(ainfo, c, "append") || len(c.Args) < 2 || render(c.Args[0]) != "children" {
+			return true
+		}
+		cond := false
+		for cur := cparents[c]; cur != nil; cur = cparents[cur] {
+			switch cur.(type) {
+			case *ast.IfStmt, *ast.ForStmt, *ast.RangeStmt:
+				cond = true
+			}
+		}
+		for _, a := range c.Args[1:] {
+			if id, ok := ast.Unparen(a).(*ast.Ident); ok {
+				if nm, isP := params[ainfo.Uses[id]]; isP {
+					children = append(children, child{nm, cond})
+				}
+			}
+		}
+		return true
+	})
+	var mayBeFirst []string
+	for _, ch := range children {
+		mayBeFirst = append(mayBeFirst, ch.param)
+		if !ch.cond {
+			break
+		}
+	}
+	if len(mayBeFirst) == 0 || len(children) < 4 {
+		w.undecided("reserved-comments|ctor", ctor.Decl.Pos(), "cannot read the child order of ast.NewGroupNode")
+		return
+	}
+	// 2. struct field -> ctor param (composite literal), accessor -> struct field
+	fieldParam := map[string]string{}
+	ast.Inspect(ctor.Decl.Body, func(x ast.Node) bool {
+		kv, ok := x.(*ast.KeyValueExpr)
+		if !ok {
+			return true
+		}
+		ast.Inspect(kv.Value, func(y ast.Node) bool {
+			if id, ok := y.(*ast.Ident); ok {
+				if nm, isP := params[ainfo.Uses[id]]; isP {
+					fieldParam[render(kv.Key)] = nm
+				}
+			}
+			return true
+		})
+		return true
+	})
+	accParam := map[string]string{}
+	for i := 0; i < gn.NumMethods(); i++ {
+		m := gn.Method(i)
+		d := w.decls[m]
+		if d == nil || d.Body == nil || d.Type.Params.NumFields() != 0 {
+			continue
+		}
+		ast.Inspect(d.Body, func(x ast.Node) bool {
+			r, ok := x.(*ast.ReturnStmt)
+			if !ok || len(r.Results) != 1 {
+				return true
+			}
+			e := ast.Unparen(r.Results[0])
+			for {
+				sel, ok := e.(*ast.SelectorExpr)
+				if !ok {
+					break
+				}
+				if p, ok := fieldParam[sel.Sel.Name]; ok {
+					if _, isRecv := ast.Unparen(sel.X).(*ast.Ident); isRecv {
+						accParam[m.Name()] = p
+					}
+				}
+				e = ast.Unparen(sel.X)
+			}
+			return true
+		})
+	}
+	// 3. the reserved-comments branch of the generator
+	claims := map[string]bool{"newLoc": true, "newLocWithComments": true, "newBlockLocWithComments": true}
+	declParam := ""
+	if gen.Decl.Type.Params.NumFields() >= 3 {
+		declParam = gen.Decl.Type.Params.List[2].Names[0].Name
+	}
+	nBranch, nChecked := 0, 0
+	gparents := parentMap(gen.Decl)
+	ast.Inspect(gen.Decl.Body, func(x ast.Node) bool {
+		ifs, ok := x.(*ast.IfStmt)
+		if !ok || len(ifs.Body.List) == 0 {
+			return true
+		}
+		first, ok := ifs.Body.List[0].(*ast.ExprStmt)
+		if !ok {
+			return true
+		}
+		fc, ok := first.X.(*ast.CallExpr)
+		if !ok || len(fc.Args) < 1 {
+			return true
+		}
+		fs, ok := ast.Unparen(fc.Fun).(*ast.SelectorExpr)
+		if !ok || fs.Sel.Name != "newLocWithoutComments" || render(fc.Args[0]) != declParam {
+			return true
+		}
+		nBranch++
+		ast.Inspect(ifs.Body, func(y ast.Node) bool {
+			c, ok := y.(*ast.CallExpr)
+			if !ok || len(c.Args) < 1 {
+				return true
+			}
+			s, ok := ast.Unparen(c.Fun).(*ast.SelectorExpr)
+			if !ok || !(claims[s.Sel.Name] || s.Sel.Name == "newLocWithoutComments") {
+				return true
+			}
+			ac, ok := ast.Unparen(c.Args[0]).(*ast.CallExpr)
+			if !ok {
+				return true
+			}
+			as, ok := ast.Unparen(ac.Fun).(*ast.SelectorExpr)
+			if !ok || render(as.X) != declParam {
+				return true
+			}
+			p, known := accParam[as.Sel.Name]
+			if !known {
+				return true
+			}
+			idx := -1
+			for i, m := range mayBeFirst {
+				if m == p {
+					idx = i
+				}
+			}
+			if idx < 0 {
+				return true
+			}
+			nChecked++
+			key := "reserved-comments|" + gen.Name + "|" + as.Sel.Name
+			if !claims[s.Sel.Name] {
+				w.ok(key, c.Pos(), "the location of "+as.Sel.Name+"() (constructor child '"+p+"', possibly the first token) is emitted without comments")
+				return true
+			}
+			// guarded by an earlier may-be-first child being present?
+			guarded := false
+			for cur := gparents[c]; cur != nil && cur != ast.Node(ifs); cur = gparents[cur] {
+				g, ok := cur.(*ast.IfStmt)
+				if !ok {
+					continue
+				}
+				be, ok := ast.Unparen(g.Cond).(*ast.BinaryExpr)
+				if !ok || be.Op != token.NEQ || !isNilIdent(sinfo, be.Y) {
+					continue
+				}
+				if gc, ok := ast.Unparen(be.X).(*ast.CallExpr); ok {
+					if gs, ok := ast.Unparen(gc.Fun).(*ast.SelectorExpr); ok && render(gs.X) == declParam {
+						if gp, ok := accParam[gs.Sel.Name]; ok {
+							for i := 0; i < idx; i++ {
+								if mayBeFirst[i] == gp {
+									guarded = true
+								}
+							}
+						}
+					}
+				}
+			}
+			if guarded {
+				w.ok(key, c.Pos(), as.Sel.Name+"() claims comments only when an earlier child is present, so it is not the first token")
+			} else {
+				w.violation(key, c.Pos(), fmt.Sprintf("in the branch that reserves the declaration's comments for the group message (newLocWithoutComments(%s, …)), the location of %s.%s() is created with %s, which claims comments in extra-comments mode; %s is the declaration's first token whenever %v is absent (child order of ast.NewGroupNode: %v), so in extra-comments mode it takes the leading comment that the group message location carries in standard mode: the two modes then differ by a *moved* comment, not only by added ones", declParam, declParam, as.Sel.Name, s.Sel.Name, as.Sel.Name, mayBeFirst[:idx], mayBeFirst))
+			}
+			return true
+		})
+		return true
+	})
+	w.floor("reserved-comments branches in generateSourceCodeInfoForField", nBranch, 1)
+	w.floor("first-token candidates located in the reserved-comments branch", nChecked, 2)
+}
